@@ -11,11 +11,14 @@ import (
 	"errors"
 	"io"
 	"os"
+	"os/exec"
+	"path/filepath"
 	"sort"
 	"strings"
 
 	"github.com/go-git/go-billy/v6"
 	"github.com/go-git/go-billy/v6/memfs"
+	"github.com/go-git/go-billy/v6/osfs"
 	"github.com/go-git/go-billy/v6/util"
 
 	git "github.com/go-git/go-git/v6"
@@ -146,7 +149,115 @@ func newFS(f format.ObjectFormat) (billy.Filesystem, *filesystem.Storage) {
 	return fs, st
 }
 
+// cfgFormat: "" = unset, "sha1", "sha256"
+func cfgFormat(s string) format.ObjectFormat {
+	switch s {
+	case "sha1":
+		return format.SHA1
+	case "sha256":
+		return format.SHA256
+	}
+	return format.UnsetObjectFormat
+}
+
+// history of a storage: constructor option, optional pre-existing config file,
+// SetObjectFormat calls.  Cases without a "ctor" field: format fixed at construction.
+type history struct {
+	ctor    format.ObjectFormat
+	cfgfile string // "none" or the objectformat the file carries ("" = file without one)
+	switches []format.ObjectFormat
+}
+
+func historyOf(c lib.Case) history {
+	if _, ok := c["ctor"]; !ok {
+		return history{ctor: objFormat(c.S("fmt")), cfgfile: "none"}
+	}
+	h := history{ctor: cfgFormat(c.S("ctor")), cfgfile: c.S("cfgfile")}
+	if h.cfgfile == "" {
+		if _, ok := c["cfgfile"]; !ok {
+			h.cfgfile = "none"
+		}
+	}
+	for _, s := range c.SL("switch") {
+		h.switches = append(h.switches, cfgFormat(s))
+	}
+	return h
+}
+
+func (h history) newFS() (billy.Filesystem, *filesystem.Storage) {
+	fs := memfs.New()
+	if h.cfgfile != "none" {
+		txt := "[core]\n\tbare = true\n"
+		if h.cfgfile != "" {
+			txt = "[core]\n\trepositoryformatversion = 1\n\tbare = true\n[extensions]\n\tobjectformat = " + h.cfgfile + "\n"
+		}
+		util.WriteFile(fs, "config", []byte(txt), 0o644)
+	}
+	st := filesystem.NewStorageWithOptions(fs, cache.NewObjectLRUDefault(), filesystem.Options{ObjectFormat: h.ctor})
+	return fs, st
+}
+
+// the run-time switch (what a clone of a SHA-256 remote does); errors (invalid
+// format) leave the storage as it is
+func (h history) apply(set func(format.ObjectFormat) error) {
+	for _, of := range h.switches {
+		_ = set(of)
+	}
+}
+
+func (h history) newMem() *memory.Storage {
+	var st *memory.Storage
+	if h.ctor == format.UnsetObjectFormat {
+		st = memory.NewStorage()
+	} else {
+		st = memory.NewStorage(memory.WithObjectFormat(h.ctor))
+	}
+	h.apply(st.SetObjectFormat)
+	return st
+}
+
 type hasher interface{ Hash() plumbing.Hash }
+
+// a SHA-1 or SHA-256 repository made by the git binary, cloned in-process
+func cloneRepo(f format.ObjectFormat) (*git.Repository, string, func(), error) {
+	tmp, err := os.MkdirTemp("", "verif-c01-clone-")
+	if err != nil {
+		return nil, "", nil, err
+	}
+	cleanup := func() { os.RemoveAll(tmp) }
+	src := filepath.Join(tmp, "src")
+	os.MkdirAll(src, 0o755)
+	run := func(args ...string) error {
+		cmd := exec.Command("/usr/bin/git", args...)
+		cmd.Dir = src
+		cmd.Env = append(os.Environ(), "GIT_CONFIG_NOSYSTEM=1", "GIT_CONFIG_GLOBAL=/dev/null", "HOME=/nonexistent",
+			"GIT_AUTHOR_NAME=v", "GIT_AUTHOR_EMAIL=v@v", "GIT_COMMITTER_NAME=v", "GIT_COMMITTER_EMAIL=v@v",
+			"GIT_AUTHOR_DATE=1700000000 +0000", "GIT_COMMITTER_DATE=1700000000 +0000")
+		if out, err := cmd.CombinedOutput(); err != nil {
+			return errors.New("git " + strings.Join(args, " ") + ": " + string(out))
+		}
+		return nil
+	}
+	of := "sha1"
+	if f == format.SHA256 {
+		of = "sha256"
+	}
+	if err := run("init", "-q", "--object-format="+of, "-b", "main", "."); err != nil {
+		cleanup()
+		return nil, "", nil, err
+	}
+	os.WriteFile(filepath.Join(src, "seed.txt"), []byte("seed\n"), 0o644)
+	if err := run("add", "seed.txt"); err == nil {
+		err = run("commit", "-q", "-m", "seed")
+	}
+	dst := filepath.Join(tmp, "dst")
+	r, err := git.PlainClone(dst, &git.CloneOptions{URL: src})
+	if err != nil {
+		cleanup()
+		return nil, "", nil, err
+	}
+	return r, dst, cleanup, nil
+}
 
 func doWrite(c lib.Case) (lib.Out, any) {
 	entry := c.S("entry")
@@ -175,8 +286,23 @@ func doWrite(c lib.Case) (lib.Out, any) {
 			h.Write(ch)
 		}
 		return lib.Bytes(h.Sum().Bytes()), nil
-	case "raw", "lazy":
-		fs, st := newFS(f)
+	case "raw", "lazy", "clone_raw", "clone_lazy":
+		var fs billy.Filesystem
+		var st *filesystem.Storage
+		if strings.HasPrefix(entry, "clone_") {
+			r, dst, cleanup, err := cloneRepo(f)
+			if err != nil {
+				return lib.Err("clone"), map[string]any{"error": err.Error()}
+			}
+			defer cleanup()
+			fs = osfs.New(filepath.Join(dst, ".git"))
+			st = r.Storer.(*filesystem.Storage)
+			entry = strings.TrimPrefix(entry, "clone_")
+		} else {
+			h := historyOf(c)
+			fs, st = h.newFS()
+			h.apply(st.SetObjectFormat)
+		}
 		var w io.WriteCloser
 		var err error
 		if entry == "raw" {
@@ -221,16 +347,28 @@ func doWrite(c lib.Case) (lib.Out, any) {
 		w.Close()
 		id, err := fst.SetEncodedObject(o)
 		return res(id, err, fileOut(fs, extra)), extra
-	case "set", "set_late", "mem", "mem_late":
+	case "set", "set_late", "mem", "mem_late", "clone_set":
 		var o plumbing.EncodedObject
 		var fs billy.Filesystem
 		var fst *filesystem.Storage
 		var mst *memory.Storage
-		if strings.HasPrefix(entry, "set") {
-			fs, fst = newFS(f)
+		if entry == "clone_set" {
+			r, dst, cleanup, err := cloneRepo(f)
+			if err != nil {
+				return lib.Err("clone"), map[string]any{"error": err.Error()}
+			}
+			defer cleanup()
+			fs = osfs.New(filepath.Join(dst, ".git"))
+			fst = r.Storer.(*filesystem.Storage)
+			o = fst.NewEncodedObject()
+			entry = "set"
+		} else if strings.HasPrefix(entry, "set") {
+			h := historyOf(c)
+			fs, fst = h.newFS()
+			h.apply(fst.SetObjectFormat)
 			o = fst.NewEncodedObject()
 		} else {
-			mst = memory.NewStorage(memory.WithObjectFormat(f))
+			mst = historyOf(c).newMem()
 			o = mst.NewEncodedObject()
 		}
 		o.SetType(t)
@@ -263,14 +401,30 @@ func doWrite(c lib.Case) (lib.Out, any) {
 			}
 		}
 		return res(id, err, lib.Sym("nofile")), extra
+	case "clone_add":
+		repo, dst, cleanup, err := cloneRepo(f)
+		if err != nil {
+			return lib.Err("clone"), map[string]any{"error": err.Error()}
+		}
+		defer cleanup()
+		if err := os.WriteFile(filepath.Join(dst, "f"), all, 0o644); err != nil {
+			return lib.Err("writefile"), nil
+		}
+		w, err := repo.Worktree()
+		if err != nil {
+			return lib.Err("worktree"), nil
+		}
+		id, err := w.Add("f")
+		return res(id, err, fileOut(osfs.New(filepath.Join(dst, ".git")), extra)), extra
 	case "add":
-		fs := memfs.New()
+		h := historyOf(c)
+		fs, st := h.newFS()
 		wt := memfs.New()
-		st := filesystem.NewStorageWithOptions(fs, cache.NewObjectLRUDefault(), filesystem.Options{ObjectFormat: f})
-		repo, err := git.Init(st, git.WithWorkTree(wt), git.WithObjectFormat(f))
+		repo, err := git.Init(st, git.WithWorkTree(wt))
 		if err != nil {
 			return lib.Err("init"), map[string]any{"error": err.Error()}
 		}
+		h.apply(st.SetObjectFormat) // after Init, like the clone path
 		if err := util.WriteFile(wt, "f", all, 0o644); err != nil {
 			return lib.Err("writefile"), nil
 		}
